@@ -151,6 +151,13 @@ pub struct Profile {
     pub templates: u32,
     pub drop_state: bool,
     pub audit: bool,
+    /// swarm testing (decoder v2): expression kinds switched off for this case (bit = index in gen_expr's weight table)
+    pub kinds_off: u16,
+    /// swarm: at most this many vars
+    pub max_vars: usize,
+    /// swarm: no new nodes/vars once the first stabilise has run (long histories over one graph)
+    pub freeze_structure: bool,
+    pub swarmed: bool,
 }
 
 impl Profile {
@@ -177,6 +184,10 @@ impl Profile {
             templates: 25,
             drop_state: false,
             audit: false,
+            kinds_off: 0,
+            max_vars: 5,
+            freeze_structure: false,
+            swarmed: false,
         }
     }
 }
@@ -194,7 +205,51 @@ pub struct GenCx<'a> {
     pub budget: usize,
 }
 
+thread_local! {
+    /// swarm testing: 0 = mixed values (default), 1 = integers only, 2 = mostly pairs, 3 = integers in {0,1}
+    static VAL_MODE: std::cell::Cell<u8> = std::cell::Cell::new(0);
+}
+pub fn set_val_mode(m: u8) {
+    VAL_MODE.with(|v| v.set(m));
+}
+
+/// Swarm testing: half of the cases (decoder v2) switch a random subset of the language off and
+/// narrow the value domain, so that the remaining features interact much more often than under
+/// one fixed distribution.
+pub fn swarm(prof: &Profile, ch: &mut Choices) -> Profile {
+    let mut p = prof.clone();
+    set_val_mode(0);
+    if crate::choice::dv() < 2 || !ch.flag(1, 2) {
+        return p;
+    }
+    // optional expression kinds: mapN fold map_ref with_old zip depend_on bind cutoff selfmap2 discard
+    let mask = ((ch.byte() as u16) << 8) | ch.byte() as u16;
+    for bit in [2u16, 3, 4, 5, 6, 7, 8, 9, 11, 13] {
+        if mask & (1 << bit) != 0 {
+            p.kinds_off |= 1 << bit;
+        }
+    }
+    set_val_mode(ch.choose(4) as u8);
+    if ch.flag(1, 2) {
+        p.max_vars = 1 + ch.choose(2);
+    }
+    p.freeze_structure = ch.flag(1, 3);
+    p.swarmed = true;
+    p
+}
+
 fn gen_val(ch: &mut Choices) -> Val {
+    match VAL_MODE.with(|v| v.get()) {
+        1 => return Val::I(ch.small_int()),
+        2 => {
+            if !ch.flag(1, 5) {
+                return Val::pair(Val::I(ch.choose(3) as i32), Val::I(ch.choose(3) as i32));
+            }
+            return Val::I(ch.small_int());
+        }
+        3 => return Val::I(ch.choose(2) as i32),
+        _ => {}
+    }
     if ch.flag(1, 5) {
         Val::pair(Val::I(ch.choose(3) as i32), Val::I(ch.choose(3) as i32))
     } else {
@@ -240,7 +295,7 @@ pub fn gen_expr(ch: &mut Choices, cx: &mut GenCx, depth: u32) -> Expr {
     cx.budget -= 1;
     let p = cx.prof;
     // weights: leaf first so that byte 0 shrinks towards a leaf
-    let w: [u32; 14] = [
+    let mut w: [u32; 15] = [
         3u32,                                                          // 0 leaf
         6,                                                             // 1 map
         4,                                                             // 2 mapN
@@ -255,7 +310,13 @@ pub fn gen_expr(ch: &mut Choices, cx: &mut GenCx, depth: u32) -> Expr {
         1,                                                             // 11 selfmap2
         if p.writers && !cx.vars.is_empty() && !cx.in_arm { 4 } else { 0 }, // 12 writer
         if cx.in_arm { 2 } else { 0 },                                 // 13 discard
+        if crate::choice::dv() >= 2 { 2 } else { 0 },                  // 14 chain of maps (tall sibling paths)
     ];
+    for (i, x) in w.iter_mut().enumerate() {
+        if p.kinds_off & (1 << i) != 0 {
+            *x = 0;
+        }
+    }
     match ch.weighted(&w) {
         0 => gen_leaf(ch, cx),
         1 => Expr::Map(ch.byte() % 8, Box::new(gen_expr(ch, cx, depth + 1))),
@@ -308,6 +369,14 @@ pub fn gen_expr(ch: &mut Choices, cx: &mut GenCx, depth: u32) -> Expr {
         }
         10 => Expr::MapCap(ch.byte() % 4, Box::new(gen_expr(ch, cx, depth + 1))),
         11 => Expr::MapSelf2(ch.byte() % 10, Box::new(gen_expr(ch, cx, depth + 1))),
+        14 => {
+            let n = 2 + ch.choose(5);
+            let mut e = gen_expr(ch, cx, depth + 1);
+            for _ in 0..n {
+                e = Expr::Map(ch.byte() % 8, Box::new(e));
+            }
+            e
+        }
         13 => Expr::Discard(
             Box::new(gen_expr(ch, cx, depth + 1)),
             Box::new(gen_expr(ch, cx, depth + 1)),
